@@ -15,7 +15,7 @@ Facts (site-stripped expressions, see core.strip_sites):
   ('eqc', e, val) / ('nec', e, vals)   integer switch
   ('called', callee_name, args, bb)    a call executed on the path (opt-in)
 """
-from .core import (FnAnalysis, callee_decl, callee_key, callee_str, decl_matches, fields_read,
+from .core import (FnAnalysis, callee_decl, callee_key, callee_str, decl_matches, fields_read, roots_read,
                    is_param_call, path_fields, split_path, strip_sites, walk, show,
                    NONMUTATING_DESPITE_MUT)
 
@@ -50,6 +50,8 @@ def adt_head(ty):
 
 def deref_arg(a):
     """value designated by a reference argument of a pure comparison call"""
+    if a and a[0] == 'refv':
+        return a[1]
     if a and a[0] == 'ref':
         return ('load', a[1], None)
     return a
@@ -80,7 +82,7 @@ def bool_facts(e, pol):
 
 
 class PathFacts:
-    def __init__(self, prog, fa, kill_summaries=None, record_calls=None, cap=2000):
+    def __init__(self, prog, fa, kill_summaries=None, record_calls=None, cap=2000, history=False):
         self.prog = prog
         self.fa = fa
         self.fn = fa.fn
@@ -93,6 +95,9 @@ class PathFacts:
         self._edge_cache = {}
         self._blk_kill = {}
         self.IN = None
+        self.history = history
+        # parameters of shared reference type: their referents are immutable during the call
+        self.immut = frozenset(i + 1 for i, t in enumerate(self.fn.inputs) if t.startswith('&') and not t.startswith('&mut'))
         self.run()
 
     # ---- variants
@@ -170,6 +175,8 @@ class PathFacts:
 
     # ---- kills of a block: set of (adt, field) / ('local', l) / ALL
     def block_kills(self, b):
+        if self.history:
+            return set()
         if b in self._blk_kill:
             return self._blk_kill[b]
         ks = set()
@@ -190,7 +197,7 @@ class PathFacts:
             return state
         out = set()
         for fs in state:
-            out.add(frozenset(f for f in fs if not fact_killed(f, ks)))
+            out.add(frozenset(f for f in fs if not fact_killed(f, ks, self.immut)))
         return minimal(out)
 
     def run(self):
@@ -233,6 +240,8 @@ class PathFacts:
         st = self.at_entry(b)
         ks = set()
         bb = self.blocks[b]
+        if self.history:
+            return st
         for k, s in enumerate(bb['s'][:idx]):
             if 'p' in s:
                 ks |= store_kill(self.fa, s['p'], (b, k))
@@ -262,12 +271,21 @@ def minimal(sets):
     return set(keep)
 
 
-def fact_killed(f, ks):
+def fact_killed(f, ks, immut=frozenset()):
+    """is fact f invalidated by the kill keys ks?  Loads rooted at a shared-reference
+    parameter (index in immut) cannot change during the call and are never killed."""
+    rr = roots_read(f)
+    only_immut = bool(rr) and rr <= immut and not any(x and x[0] == 'local' for x in walk(f))
+    if only_immut:
+        return False
     if ALL in ks:
         return any(x and x[0] in ('load', 'local') for x in walk(f)) or bool(fields_read(f))
     fr = fields_read(f)
     if fr & ks:
         return True
+    for k in ks:
+        if k[0] == 'root' and k[1] in rr:
+            return True
     for x in walk(f):
         if x and x[0] == 'local' and ('local', x[1]) in ks:
             return True
@@ -293,11 +311,24 @@ def path_kill(pe, pr=None):
     # no field in the symbolic path: use the projection's own field info if any
     if pr:
         for e in reversed(pr):
-            if isinstance(e, dict) and 'f' in e:
+            if isinstance(e, dict) and 'f' in e and e.get('adt'):
                 return {(e.get('adt', ''), e['n'])}
     root, _ = split_path(pe)
     if root[0] == 'local':
         return {('local', root[1])}
+    if root[0] == 'deref' and root[1][0] == 'param':
+        return {('root', root[1][1])}
+    if root[0] == 'param':
+        return {('root', root[1])}
+    return {ALL}
+
+
+def value_kill(v):
+    """kill keys for writing through pointer value v"""
+    if v[0] == 'ref':
+        return path_kill(v[1])
+    if v[0] == 'param':
+        return {('root', v[1])}
     return {ALL}
 
 
@@ -335,13 +366,18 @@ def call_kill(prog, fa, t, at, summaries):
     if callee is not None and callee.has_body and summaries is not None:
         s = summaries.of(callee)
         if ALL not in s:
-            return set(s)
+            for k in s:
+                if k[0] == 'root':
+                    i = k[1] - 1
+                    if i < len(t['a']):
+                        ks |= value_kill(fa.operand(t['a'][i], at))
+                    else:
+                        ks.add(ALL)
+                else:
+                    ks.add(k)
+            return ks
     for (i, pe, v) in margs:
-        if pe is None:
-            # a &mut value of unknown provenance (e.g. iterator element): field based on type unknown
-            ks.add(ALL)
-        else:
-            ks |= path_kill(pe)
+        ks |= value_kill(v)
     return ks
 
 
@@ -358,9 +394,10 @@ class KillSummaries:
         return self.sum.get(fn.key, {ALL})
 
     def _compute(self):
-        fns = [f for f in self.prog.fns.values() if f.has_body and f.crate in ('maybenot', 'maybenot_simulator', 'maybenot_ffi')]
+        ws = ('maybenot', 'maybenot_simulator', 'maybenot_ffi')
+        fns = [f for f in self.prog.fns.values() if f.has_body and f.crate in ws]
         direct = {}
-        calls = {}
+        callsites = {}
         for f in fns:
             fa = self.analyses.get(f)
             d = set()
@@ -373,12 +410,12 @@ class KillSummaries:
                     p = s['p']
                     if any(e in ('*', '*raw') for e in p['pr']):
                         pe = fa.place_expr(p, (b, k))
-                        kk = path_kill(pe, p['pr'])
-                        d |= {x for x in kk if x[0] != 'local'}
+                        d |= {x for x in path_kill(pe, p['pr']) if x[0] != 'local'}
                 t = bb['t']
                 if t['k'] == 'call':
+                    at = (b, len(bb['s']))
                     if any(e in ('*', '*raw') for e in t['d']['pr']):
-                        pe = fa.place_expr(t['d'], (b, len(bb['s'])))
+                        pe = fa.place_expr(t['d'], at)
                         d |= {x for x in path_kill(pe, t['d']['pr']) if x[0] != 'local'}
                     fr = t['f']
                     if 'indirect' in fr:
@@ -386,29 +423,35 @@ class KillSummaries:
                         continue
                     if decl_matches(fr, NONMUTATING_DESPITE_MUT):
                         continue
-                    margs = mut_ref_args(fa, t, (b, len(bb['s'])))
+                    margs = mut_ref_args(fa, t, at)
                     if not margs:
                         continue
                     key = callee_key(fr)
                     callee = self.prog.fns.get(key) if fr.get('resolved') else None
-                    if callee is not None and callee.has_body and callee.crate in ('maybenot', 'maybenot_simulator', 'maybenot_ffi'):
-                        cs.append(callee.key)
+                    if callee is not None and callee.has_body and callee.crate in ws:
+                        cs.append((callee.key, tuple(fa.operand(a, at) for a in t['a'])))
                         continue
                     for (i, pe, v) in margs:
-                        if pe is None:
-                            d.add(ALL)
-                        else:
-                            kk = path_kill(pe)
-                            d |= {x for x in kk if x[0] != 'local'}
+                        d |= {x for x in value_kill(v) if x[0] != 'local'}
             direct[f.key] = d
-            calls[f.key] = cs
+            callsites[f.key] = cs
         self.sum = {k: set(v) for k, v in direct.items()}
         changed = True
         while changed:
             changed = False
             for k in self.sum:
-                for c in calls[k]:
-                    add = self.sum.get(c, {ALL}) - self.sum[k]
+                for (c, args) in callsites[k]:
+                    add = set()
+                    for e in self.sum.get(c, {ALL}):
+                        if e[0] == 'root':
+                            i = e[1] - 1
+                            if i < len(args):
+                                add |= {x for x in value_kill(args[i]) if x[0] != 'local'}
+                            else:
+                                add.add(ALL)
+                        else:
+                            add.add(e)
+                    add -= self.sum[k]
                     if add:
                         self.sum[k] |= add
                         changed = True
@@ -432,10 +475,13 @@ class Analyses:
             self._kills = KillSummaries(self.prog, self)
         return self._kills
 
-    def paths(self, fn, record_calls=None):
-        key = ('pf', fn.key, id(record_calls) if record_calls else None)
+    def paths(self, fn, record_calls=None, history=False, tag=None):
+        """path facts of fn.  history=True: facts are never invalidated (they record which
+        tests were passed on the way, evaluated at the time of the test); history=False:
+        facts about memory are dropped when that memory may have been written."""
+        key = ('pf', fn.key, tag if record_calls else None, history)
         if key not in self._c:
-            self._c[key] = PathFacts(self.prog, self.get(fn), self.kills(), record_calls)
+            self._c[key] = PathFacts(self.prog, self.get(fn), self.kills(), record_calls, history=history)
         return self._c[key]
 
 
